@@ -24,6 +24,8 @@ var rR16w = RuleRef{Name: "R16w", Doc: "durability points and validation before 
 		{Pkg: walPkg, Fn: "WAL.cut", At: "ret-nil", NeedAll: []string{"OK|Rename", "OK|Fsync"}, What: "the directory is fsynced after the rename"},
 		{Pkg: walPkg, Fn: "WAL.cut", At: "call:Fsync", NeedAll: []string{"OK|Rename"}, What: "directory fsync comes after the rename"},
 		{Pkg: walPkg, Fn: "WAL.SaveSnapshot", At: "ret-ok", NeedAll: []string{"OK|encode", "C|sync"}, What: "a snapshot record is synced before SaveSnapshot returns"},
+		{Pkg: walPkg, Fn: "WAL.ReadAll", At: "call:newFileEncoder", AllEdges: true, NeedAny: []string{"OK|ZeroToEnd", "T|cmp:nil==tail()"}, What: "appending is enabled only after the space behind the last valid record was zeroed (leftovers of a torn write must not be read back as records later); read mode, which has no tail file, excepted"},
+		{Pkg: walPkg, Fn: "WAL.ReadAll", At: "call:ZeroToEnd", AllEdges: true, NeedAll: []string{"OK|Seek"}, What: "the zeroing starts at the end of the last valid record (the file is positioned there first)"},
 		{Pkg: walPkg, Fn: "Repair", At: "ret-true", AllEdges: true, NeedAll: []string{"OK|Fsync"}, IfMay: []string{"C|Truncate"}, What: "the truncated file is fsynced before the repair is reported successful"},
 		{Pkg: walPkg, Fn: "decoder.decodeRecord", At: "ret-nil", NeedAll: []string{"OK|Unmarshal"}, NeedAny: []string{"OK|Validate", "T|cmp:4==Type"}, What: "a record is handed out only after it unmarshalled and its CRC validated (CRC records excepted)"},
 		{Pkg: snapPkg, Fn: "Read", At: "ret-nil", NeedAll: []string{"OK|Unmarshal", "T|cmp:Crc==Update()"}, What: "a snapshot is returned only after its CRC matched"},
@@ -114,6 +116,49 @@ var rR16w = RuleRef{Name: "R16w", Doc: "durability points and validation before 
 		c.Add("R16w", fnName(fn), "a re-read entry truncates the collected log at its index before it is appended", fn.Pos(), truncAppend >= 1 && inPlace == 0, fmt.Sprintf("append(ents[:up], e) sites: %d, other writes into the entry slice: %d", truncAppend, inPlace))
 	} else {
 		c.Undecided("R16w", "anchor (*WAL).ReadAll")
+	}
+	// SaveSnapshot never moves the last-entry index backwards (cut() names the next segment after it, searchIndex trusts the name)
+	if fn := c.P.Func(walPkg, "WAL.SaveSnapshot"); fn != nil {
+		of := c.orderFlow(fn, nil, true, "T|cmp:enti<Index")
+		n := 0
+		for _, b := range fn.Blocks {
+			for _, in := range b.Instrs {
+				st, ok := in.(*ssa.Store)
+				if !ok {
+					continue
+				}
+				fa, ok := st.Addr.(*ssa.FieldAddr)
+				if !ok || fieldName(fa) != "enti" {
+					continue
+				}
+				n++
+				good := false
+				if call, ok := st.Val.(*ssa.Call); ok {
+					if bi, ok := call.Call.Value.(*ssa.Builtin); ok && bi.Name() == "max" {
+						for _, a := range call.Call.Args {
+							if u, ok := a.(*ssa.UnOp); ok {
+								if f2, ok := u.X.(*ssa.FieldAddr); ok && fieldName(f2) == "enti" {
+									good = true
+								}
+							}
+						}
+					}
+				}
+				if !good {
+					states, live := of.States(in)
+					good = live
+					for _, s := range states {
+						if !s["T|cmp:enti<Index"] {
+							good = false
+						}
+					}
+				}
+				c.Add("R16w", fnName(fn), "the last-entry index is only raised by a snapshot record", in.Pos(), good, "the store to enti must be guarded by enti < snapshot index (a local snapshot lies behind the last saved entry; lowering enti mis-names the next segment)")
+			}
+		}
+		c.Count("R16w_snapshot_enti_stores", n)
+	} else {
+		c.Undecided("R16w", "anchor (*WAL).SaveSnapshot")
 	}
 	// raftexample never disables fsync
 	var bad []string
